@@ -42,14 +42,27 @@ def haar(n, seed):
     return q * ph
 
 
-def stochastic(n, seed, diag=0.8):
-    """Column-stochastic upper-triangular detector matrix P[k, n] = P(click k | n)."""
+def stochastic(n, seed, diag=0.8, dark=0.0):
+    """Column-stochastic detector matrix P[k, n] = P(click k | n).
+
+    Upper-triangular (losses only) when dark == 0; with dark > 0 every column also has
+    entries below the diagonal (dark counts: more clicks than photons, vacuum included).
+    """
     g = _real_default_rng(int(seed))
     m = np.zeros((n, n))
     for col in range(n):
         w = g.uniform(0.05, 0.3, size=col + 1)
         w[col] = diag * (col + 1)
         m[: col + 1, col] = w / w.sum()
+    if dark > 0:
+        for col in range(n):
+            k = n - col - 1
+            if k == 0:
+                continue
+            extra = g.uniform(0.2, 1.0, size=k)
+            extra = dark * extra / extra.sum()
+            m[:, col] *= 1.0 - dark
+            m[col + 1 :, col] = extra
     return m
 
 
@@ -108,7 +121,7 @@ def realise(v):
             s = np.asarray(v["sv"], dtype=float)
             return haar(n, v.get("seed", 0)) @ np.diag(s) @ haar(n, v.get("seed", 0) + 1)
         if k == "stochastic":
-            return stochastic(v["n"], v.get("seed", 0), v.get("diag", 0.8))
+            return stochastic(v["n"], v.get("seed", 0), v.get("diag", 0.8), v.get("dark", 0.0))
         if k == "expr":
             return v["s"]
         if k == "fn":
@@ -122,6 +135,8 @@ def realise(v):
             return flavour(a, v.get("order", "C"))
         if k == "eye":
             return flavour(np.eye(v["n"], dtype=v.get("dtype", "float64")) * v.get("scale", 1.0), v.get("order", "C"))
+        if k == "programs":  # a list of sub-programs (BatchPrepare / BatchApply)
+            return [build_program(x) for x in v["v"]]
         if k == "fockmap":
             return {tuple(key): realise(val) for key, val in v["items"]}
         if k == "gram":  # Gram matrix of unit vectors: positive semidefinite, unit diagonal
